@@ -218,7 +218,7 @@ def vhdx(size=1 << 30, meta_offset=VHDX_HEADER_END, item_offset=65536,
         buf[p:p + 16] = g.bytes_le
         struct.pack_into('<III', buf, p + 16, off & 0xffffffff, ln & 0xffffffff,
                          (vds_flags & 0xffffffff) if g == GUID_VDS else 0)
-        bounds += [p, p + 16, p + 32]
+        bounds += [p, p + 16, p + 20, p + 24, p + 28, p + 32]
     table_end = meta_offset + 32 + 32 * len(items)
     vds_at = meta_offset + item_offset
     if vds_at + 8 <= total:
@@ -434,6 +434,28 @@ def iso(blocks=1000, block_size=2048, desc_type=1, ident=b'CD001',
 
 # ---------------------------------------------------------------------------
 # MBR / GPT (UEFI 2.10 sec. 5)
+
+def gpt_disk(entries=128, entry_size=128, entry_lba=2, length=None, seed=0, signature=b'EFI PART'):
+    """Protective MBR + primary GPT header at LBA 1 + partition entry array (the
+    inspector of the pinned tree reads the MBR only; the header is here so that
+    hostile count / size / LBA fields are part of the stream family)."""
+    import zlib
+    arr_len = min(entries * entry_size, 4 << 20)
+    total = max(1024 + 512, entry_lba * 512 + arr_len + 512) if length is None else length
+    buf = bytearray(total)
+    buf[0:512] = mbr([PTE_GPT], length=512).data
+    arr = filler(seed, min(arr_len, max(0, total - entry_lba * 512)), 11)
+    buf[entry_lba * 512:entry_lba * 512 + len(arr)] = arr
+    h = bytearray(92)
+    struct.pack_into('<8sIIIIQQQQ16sQIII', h, 0, signature, 0x00010000, 92, 0, 0, 1, total // 512 - 1,
+                     34, max(34, total // 512 - 34), b'\x11' * 16, entry_lba & ((1 << 64) - 1),
+                     entries & 0xffffffff, entry_size & 0xffffffff, zlib.crc32(bytes(arr)) & 0xffffffff)
+    struct.pack_into('<I', h, 16, zlib.crc32(bytes(h)) & 0xffffffff)
+    buf[512:512 + 92] = h
+    return Image('gpt', bytes(buf), size=total, bounds=[446, 510, 512, 520, 584, 592, 596, 600, 604, 1024,
+                                                        entry_lba * 512, entry_lba * 512 + arr_len],
+                 name='gpt-disk')
+
 
 PTE_EMPTY = dict(boot=0, start=(0, 0, 0), ostype=0, end=(0, 0, 0), lba=0, size=0)
 PTE_GPT = dict(boot=0, start=(0, 2, 0), ostype=0xEE, end=(0xff, 0xff, 0xff),
